@@ -7,6 +7,7 @@ import (
 	"strconv"
 
 	regexp2 "github.com/dlclark/regexp2/v2"
+	"github.com/dlclark/regexp2/v2/syntax"
 	"verif/internal/mon"
 )
 
@@ -14,9 +15,11 @@ func main() {
 	o := flag.String("o", "0", "options (int, 0x..)")
 	s := flag.Int("s", 0, "start (runes); -1 = default")
 	dump := flag.Bool("d", false, "dump tree and code")
+	rw := flag.Int("rw", 0, "VerifDisableRewrites mask")
 	flag.Parse()
 	opts, _ := strconv.ParseInt(*o, 0, 32)
 	pat := flag.Arg(0)
+	syntax.VerifDisableRewrites = uint32(*rw)
 	re, err := regexp2.Compile(pat, regexp2.RegexOptions(opts))
 	if err != nil {
 		fmt.Println("compile error:", err)
